@@ -26,8 +26,10 @@ from harness.common import exc_name, jdump
 
 PID = "C12"
 TITLE = "Histogram and graph arithmetic, scaling and conversions keep every cell"
-LEAN_MODULES = ["LenaModel.Props.C12"]
-LEAN_SOURCES = ["LenaModel/Model/NArr.lean", "LenaModel/Model/C12.lean", "LenaModel/Lemmas/C12.lean",
+LEAN_MODULES = ["LenaModel.Props.C12", "LenaModel.Props.C12Ext"]
+LEAN_SOURCES = ["LenaModel/Model/NArr.lean", "LenaModel/Model/C12.lean", "LenaModel/Model/C12Ext.lean",
+                "LenaModel/Model/C12Spec.lean", "LenaModel/Lemmas/C12Spec.lean", "LenaModel/Props/C12Ext.lean",
+                "LenaModel/Lemmas/C12.lean",
                 "LenaModel/Lemmas/C12Hist.lean", "LenaModel/Lemmas/C12Graph.lean", "LenaModel/Lemmas/C12Csv.lean",
                 "LenaModel/Props/C12.lean"]
 DRIVER = "drivers/C12.lean"
@@ -74,6 +76,25 @@ THEOREMS = [
     "Lena.C12.csv_one_row_per_cell_2d",
     "Lena.C12.graph_add_spec",
     "Lena.C12.graph_add_error_fields",
+    "Lena.C12.iter_cells_coord_ranges",
+    "Lena.C12.iter_cells_both_ranges",
+    "Lena.C12.coord_range_axis_selects",
+    "Lena.C12.get_bin_edges_nested",
+    "Lena.C12.get_bin_edges_flat",
+    "Lena.C12.get_bin_on_index_cells",
+    "Lena.C12.fmt_precision",
+    "Lena.C12.csv_text_spec",
+    "Lena.C12.csv_text_of_rows",
+    "Lena.C12.hist_to_graph_element",
+    "Lena.C12.group_scale_call",
+    "Lena.C12.graph_add_not_graph",
+    "Lena.C12.scale_none_reads_only",
+    "Lena.C12.wfB_iff",
+    "Lena.C12.validB_iff",
+    "Lena.C12.inRangeB_iff",
+    "Lena.C12.validRangesB_iff",
+    "Lena.C12.errorFieldOfB_iff",
+    "Lena.C12.nonEmptyAxesB_iff",
 ]
 TRUSTED = [
     "Lean 4.33.0 kernel; axioms limited to propext, Classical.choice, Quot.sound (audited by #print axioms on every run)",
@@ -699,6 +720,34 @@ def h2g_el_case(rng, shape):
     return c
 
 
+def csv_flow_case(rng):
+    """several histograms through ONE ToCSV element (state must not leak from one value to the next)"""
+    n = rng.randint(2, 3)
+    vals = [_csv_text_case(rng) for _ in range(n)]
+    base = vals[0]
+    for v in vals:
+        v.pop("lists", None)
+        v.pop("data", None)
+        if isinstance(v["h"]["bins"][0], list) and len(shape_of(v["h"])) == 1:
+            v["h"]["bins"] = [b[0] for b in v["h"]["bins"]]
+    return {"op": "csv_flow", "vals": vals, "sep": base["sep"], "header": base["header"], "row_end": base["row_end"],
+            "last_row_end": base["last_row_end"], "dup": base["dup"]}
+
+
+def h2g_flow_case(rng):
+    """several values through ONE HistToGraph element"""
+    first = h2g_el_case(rng, rng.choice(SHAPES[:13]))
+    dim = len(shape_of(first["h"]))
+    if first["mv"] == "notvar" or first["mode"] not in ("left", "right", "middle"):
+        first["mv"], first["mode"] = None, "left"
+    vals = [first]
+    for _ in range(rng.randint(1, 2)):
+        shape = rng.choice([sh for sh in SHAPES if len(sh) == dim])
+        v = h2g_el_case(rng, shape)
+        vals.append({"h": v["h"], "is_hist": v["is_hist"], "to_graph": v["to_graph"], "ctx": v["ctx"]})
+    return {"op": "h2g_flow", "vals": vals}
+
+
 def graph_add_case(rng):
     dim = rng.randint(1, 3)
     coords_names = COORD_NAMES[:dim]
@@ -877,6 +926,8 @@ MIXTURE = [
     (3, scale_to_call_case),
     (3, graph_add_case),
     (3, mk_hist_case),
+    (3, csv_flow_case),
+    (3, h2g_flow_case),
     (1, lambda rng: hscale_case(rng, zero_integral_hist(rng), True)),
     (1, lambda rng: nevents_case(rng, gen_hist(rng, _rshape(rng), pattern="zero"), True)),
 ]
@@ -1152,6 +1203,75 @@ def run_impl(case):
         res["same"] = graph_state(a) == sa and graph_state(b) == sb
         return res
 
+    if op == "csv_flow":
+        el = lena.output.ToCSV(separator=case["sep"], header=case["header"], row_end=case["row_end"],
+                               last_row_end=case["last_row_end"], duplicate_last_bin=case["dup"])
+        vals = []
+        for v in case["vals"]:
+            data = build_hist(v["h"])
+            ctx = {}
+            if not v["to_csv"]:
+                ctx = {"output": {"to_csv": False}}
+            if v.get("ctx_dup") is not None:
+                ctx.setdefault("output", {})["duplicate_last_bin"] = v["ctx_dup"]
+            vals.append((data, ctx) if v.get("pair", True) or ctx else data)
+        with warnings.catch_warnings():
+            warnings.simplefilter("ignore")
+            try:
+                out = list(el.run(vals))
+            except Exception as ex:
+                return _exc(ex)
+        if len(out) != len(vals):
+            return {"n_out": len(out)}
+        outs = []
+        for o, val in zip(out, vals):
+            if o is val:
+                outs.append({"unchanged": True})
+            elif isinstance(o, tuple) and isinstance(o[0], str):
+                outs.append({"text": o[0], "ctx": _canon_ctx(o[1])})
+            else:
+                outs.append({"unchanged": False, "not_text": type(o).__name__})
+        return {"outs": outs}
+
+    if op == "h2g_flow":
+        import lena.variables
+        first = case["vals"][0]
+        names = first["fields"]
+        fn = ["x", "y"] if names is None else (names["s"] if "s" in names else tuple(names["t"]))
+        sc = first["scale"]
+        scale = sc if (sc is None or sc is True) else pynum(sc, "int")
+        mv = None if first["mv"] is None else lena.variables.Variable("val", _mv(first["mv"]))
+        el = lena.structures.HistToGraph(make_value=mv, get_coordinate=first["mode"], field_names=fn, scale=scale)
+        outs = []
+        hs = []
+        vals = []
+        for v in case["vals"]:
+            h = build_hist(v["h"])
+            hs.append(h)
+            data = h if v["is_hist"] else 7
+            ctx = {} if v["to_graph"] else {"histogram": {"to_graph": False}}
+            vals.append((data, ctx) if (v["ctx"] or not v["to_graph"]) else data)
+        it = el.run(iter(vals))
+        for v, h, val in zip(case["vals"], hs, vals):
+            try:
+                o = next(it)
+            except StopIteration:
+                outs.append({"missing": True})
+                break
+            except Exception as ex:
+                outs.append({"e": exc_name(ex), "phase": "run"})
+                break
+            if o is val:
+                outs.append({"unchanged": True})
+            elif isinstance(o, tuple) and isinstance(o[0], lena.structures.graph):
+                g = o[0]
+                outs.append({"g": graph_state(g), "rows": [[enc(x) for x in row] for row in g],
+                             "hscale": None if h._scale is None else enc(h._scale),
+                             "bins_same": enc_nested(h.bins) == map_nested(norm, v["h"]["bins"])})
+            else:
+                outs.append({"not_graph": type(o).__name__})
+        return {"outs": outs}
+
     if op in ("csv", "csv_graph", "csv_text"):
         el_kw = {"separator": case["sep"], "header": case["header"], "row_end": case["row_end"],
                  "last_row_end": case["last_row_end"]}
@@ -1364,6 +1484,10 @@ def _spec_requests(case):
     if op == "iter" and well_shaped(case["h"]):
         rg = case["ranges"]
         return [{"op": "spec_hist", "h": model_hist(case["h"]), "ranges": rg if rg else None}]
+    if op == "iter_coord":
+        co = case["coord"]
+        prs = [co["single"]] if "single" in co else co["many"]
+        return [{"op": "spec_coord", "edges": case["h"]["edges"], "values": [list(p_) for p_ in prs]}]
     if op == "hscale" and case["exact"]:
         i = ref_integral(case["h"])
         if i != 0:
@@ -1390,6 +1514,8 @@ def _spec_requests(case):
 
 def model_requests(case):
     main = _main_requests(case)
+    if case["op"] in ("csv_flow", "h2g_flow"):
+        return main
     return main + (_spec_requests(case) if main else [])
 
 
@@ -1408,6 +1534,14 @@ def _main_requests(case):
         return [{"op": "csv_text", "h": model_hist(case["h"]), "to_csv": case["to_csv"], "ctx_dup": case["ctx_dup"],
                  "dup": case["dup"], "sep": case["sep"], "header": case["header"], "row_end": case["row_end"],
                  "last_row_end": case["last_row_end"]}]
+    if op == "csv_flow":
+        return [{"op": "csv_text", "h": model_hist(v["h"]), "to_csv": v["to_csv"], "ctx_dup": v["ctx_dup"],
+                 "dup": case["dup"], "sep": case["sep"], "header": case["header"], "row_end": case["row_end"],
+                 "last_row_end": case["last_row_end"]} for v in case["vals"]]
+    if op == "h2g_flow":
+        f = case["vals"][0]
+        return [{"op": "h2g_el", "mv": f["mv"], "mode": f["mode"], "fields": f["fields"], "scale": f["scale"],
+                 "is_hist": v["is_hist"], "h": model_hist(v["h"]), "to_graph": v["to_graph"]} for v in case["vals"]]
     if op == "h2g_el":
         return [{"op": "h2g_el", "mv": case["mv"], "mode": case["mode"], "fields": case["fields"], "scale": case["scale"],
                  "is_hist": case["is_hist"], "h": model_hist(case["h"]), "to_graph": case["to_graph"]}]
@@ -1511,6 +1645,14 @@ def _compare_spec(case, sp):
                               for k, (lo, up), n in zip(i, rg, dims))]
                 return diff("selAll/rangePred selection", sp["selected"], sel)
         return None
+    if op == "iter_coord":
+        import bisect
+        co = case["coord"]
+        prs = [co["single"]] if "single" in co else co["many"]
+        axes = [[q(x) for x in ax] for ax in axes_of(case["h"])]
+        want = [[bisect.bisect_right(ax, q(v)) for v in p_] for ax, p_ in zip(axes, prs)]
+        return (diff("edgesNotAbove", sp["not_above"], want) or
+                diff("increasingPairs", sp["increasing"], [all(a < b for a, b in zip(ax, ax[1:])) for ax in axes]))
     if op == "hscale":
         c = q(case["other"]) / ref_integral(case["h"])
         flat = [q(v) for v in flat_nested(case["h"]["bins"])]
@@ -1575,7 +1717,28 @@ def _ref_csv_rows(case):
     return want
 
 
+def _flow_parts(case):
+    """the single-value cases a flow case consists of"""
+    if case["op"] == "csv_flow":
+        return [dict(v, op="csv_text", sep=case["sep"], header=case["header"], row_end=case["row_end"],
+                     last_row_end=case["last_row_end"], dup=case["dup"]) for v in case["vals"]]
+    f = case["vals"][0]
+    return [dict(v, op="h2g_el", mv=f["mv"], mode=f["mode"], fields=f["fields"], scale=f["scale"]) for v in case["vals"]]
+
+
 def compare(case, res, replies):
+    if case["op"] in ("csv_flow", "h2g_flow"):
+        if "outs" not in res:
+            return f"{case['op']}: impl {str(res)[:200]}"
+        if "e" in res["outs"][-1] and len(res["outs"]) < len(replies):
+            replies = replies[:len(res["outs"])]
+        if len(res["outs"]) != len(replies):
+            return f"{case['op']}: {len(res['outs'])} outputs for {len(replies)} values"
+        for k, (part, r, m) in enumerate(zip(_flow_parts(case), res["outs"], replies)):
+            msg = _compare_main(part, r, [m])
+            if msg:
+                return f"value {k} of the flow: {msg}"
+        return None
     msg = _compare_main(case, res, replies)
     if msg is None and len(replies) > 1:
         msg = _compare_spec(case, replies[1])
@@ -1773,6 +1936,18 @@ def oracle(case, res):
 
     if op == "mk_hist":
         return None      # construction is C06's subject; here only the correspondence uses it
+
+    if op in ("csv_flow", "h2g_flow"):
+        if "outs" not in res:
+            return f"{op}: {str(res)[:200]}"
+        parts = _flow_parts(case)
+        if len(res["outs"]) != len(parts) and "e" not in res["outs"][-1]:
+            return f"{op}: {len(res['outs'])} values came out of the element for {len(parts)} values"
+        for k, (part, r) in enumerate(zip(parts, res["outs"])):
+            msg = oracle(part, r)
+            if msg:
+                return f"value {k} of a flow through one element: {msg}"
+        return None
 
     if op == "iter_coord":
         # the statement: whatever cells iter_cells selects, they agree with iter_bins on content, index and edges,
@@ -2281,6 +2456,8 @@ def nontrivial(case, res):
     if op in ("graph", "csv_graph"):
         g = case["g"]
         return bool(g["coords"]) and len(g["coords"][0]) >= 2 and not res.get("unchanged", False)
+    if op in ("csv_flow", "h2g_flow"):
+        return True
     if op == "scale_to":
         return len(case["group"]) >= 2
     if op == "scale_to_call":
